@@ -550,13 +550,20 @@ def check_lattice(ctx, case, idx_case, prev, level, prebuilt=None, model=None):
                 nops += 1
                 if same_outcome(oL, oR):
                     continue
+                if name == "tables" and V <= c09p.VMAX:
+                    # no generic skip here: the extracted predicates decide (harness/c09p.py) — a float32 rounding that flips a geometric
+                    # predicate is the listed finding roundtrip:tables-differ-where-float32-flips-a-predicate, anything else is a violation
+                    if not c09p.judge_pair(ctx, L, R, {"kind": "lattice", "case": case, "index": idx_case, "level": level}):
+                        bad("operation-differs:tables",
+                            f"tables of the restored lattice (protocol {pr}, pickled after {points[1:pi + 1]}) differ from the original's beyond the integer tables: {short(oL)} vs {short(oR)}")
+                    continue
                 if variants is None:
                     try:
                         variants = noise_variants(pos, idx, cross, rng)
                     except Exception:
                         variants = []
                 if not all(same_outcome(oL, outcome(f, Lv)) for Lv in variants):
-                    res.skip("float32-nongeneric:" + name.split("(")[0])
+                    res.skip("float32-nongeneric:" + (name.split("(")[0] if name != "tables" else "tables(V>200,predicates-not-evaluated)"))
                     continue
                 bad("operation-differs:" + name.split("(")[0],
                     f"{name} on the restored lattice (protocol {pr}, pickled after {points[1:pi + 1]}) differs from the original: {short(oL)} vs {short(oR)}")
